@@ -137,6 +137,10 @@ op("boxed_add_mul_128", [("a", "U128", "sec:16"), ("b", "U128", "sec:16"), ("r",
    "let x = BoxedUint::from(*a); let y = BoxedUint::from(*b); let z = x.mul(&y).wrapping_add(&x.widen(256)); let mut o = [0u64; 4]; o.copy_from_slice(z.as_words()); *r = U256::from_words(o);")
 op("boxed_cmp_select_128", [("a", "U128", "sec:16"), ("b", "U128", "sec:16"), ("r", "[u8; 3]", "out:3")],
    "let x = BoxedUint::from(*a); let y = BoxedUint::from(*b); *r = [x.ct_eq(&y).unwrap_u8(), x.ct_lt(&y).unwrap_u8(), (x.cmp(&y) as i8) as u8];")
+op("boxed_cmp_mixed_precision", [("a", "U128", "sec:16"), ("b", "U256", "sec:32"), ("r", "[u8; 6]", "out:6")],
+   "let x = BoxedUint::from(*a); let y = BoxedUint::from(*b); *r = [x.ct_eq(&y).unwrap_u8(), (y == x) as u8, x.ct_lt(&y).unwrap_u8(), y.ct_lt(&x).unwrap_u8(), x.ct_gt(&y).unwrap_u8(), (x.cmp(&y) as i8) as u8];")
+op("boxed_addsub_mixed_precision", [("a", "U128", "sec:16"), ("b", "U256", "sec:32"), ("r", "U256", "out:32"), ("c", "[u8; 2]", "out:2")],
+   "let x = BoxedUint::from(*a); let y = BoxedUint::from(*b); let (s, c1) = y.adc(&x, Limb::ZERO); let (d, c2) = s.sbb(&x, Limb::ZERO); let mut o = [0u64; 4]; o.copy_from_slice(d.as_words()); *r = U256::from_words(o); *c = [c1.0 as u8, c2.0 as u8];")
 op("boxed_shl_secret_shift_128", [("a", "U128", "sec:16"), ("sh", "u32", "secval:32"), ("r", "U128", "out:16")],
    "let x = BoxedUint::from(*a); let z = x.wrapping_shl(sh); let mut o = [0u64; 2]; o.copy_from_slice(z.as_words()); *r = U128::from_words(o);", tier="thorough")
 op("boxed_div_rem_128", [("a", "U128", "sec:16"), ("b", "U128", "sec:16"), ("q", "U128", "out:16")],
